@@ -210,3 +210,49 @@ def _s(v):
             parts.append(("%s" % k) if c == 1 else "%d*%s" % (c, k))
         return " + ".join(parts)
     return str(v)
+
+
+def shared_static_writes(prog, eff, fns):
+    """{(name, is_tls): [(function, node)]}: objects with static storage that the given functions write
+    (file-scope globals by effect analysis, function-scope statics by their declaration)."""
+    written = {}
+    for f in fns:
+        for t in eff.direct(f):
+            if t[0] == "global":
+                written.setdefault((t[1], t[2]), []).append((f, t[-1]))
+        for i, n in enumerate(f.nodes):
+            if n["k"] == "DeclStmt":
+                for d in n["decls"]:
+                    if d.get("static") and not d["ctype"].startswith("const"):
+                        written.setdefault((d["name"] + "@" + f.name, False), []).append((f, i))
+    return written
+
+
+def private_storage_rule(ctx, rule, what):
+    """The bytes of a thread's events travel only through that thread's own storage: no function reachable from
+    the tracing API writes an object with static storage that is not thread-local, except the process state
+    rproc (written once, under the init protocol of C11)."""
+    import json
+    import os
+    from ovsa import effects as _eff, errflow
+    from ovsa.facts import VERIF
+    prog = ctx.prog
+    eff = _eff.Effects(prog)
+    reg = errflow.Registry(prog)
+    with open(os.path.join(VERIF, "spec", "C11.json")) as fh:
+        exc = json.load(fh).get("shared_write_exceptions", {})
+    exported = [f for f in prog.fns_in(OV) if not f.static]
+    reach = [prog.functions[k] for k in errflow.reachable_from(prog, reg, exported)]
+    n = 0
+    for (name, tls), sites in sorted(shared_static_writes(prog, eff, reach).items()):
+        if tls:
+            continue
+        n += 1
+        f0, n0 = sites[0]
+        ctx.check(name == "rproc" or name in exc, rule, "thread-private-storage:%s" % name, f0.loc(n0),
+                  "%s: '%s' has static storage, is not thread-local and is written by %s, which concurrent tracing "
+                  "threads run without a lock: their %s would mix" %
+                  (f0.name, name, ", ".join(sorted({f.name for f, _ in sites}))[:120], what))
+    ctx.need(len(reach) >= 40, "%s: only %d functions reachable from the tracing API" % (rule, len(reach)))
+    ctx.ok(rule, "thread-private-storage:scan", OV, "%d functions reachable from %d exported entry points scanned, "
+           "%d shared static objects written" % (len(reach), len(exported), n))
